@@ -223,6 +223,12 @@ class Check:
         for n, b in zip(names, blocks):
             axioms = [] if b.startswith("Closed") else [
                 a for a in re.findall(r"(?m)^([A-Za-z_][\w.']*)\s*:", b) if a != "Axioms"]
+            prims = [a for a in axioms if a.startswith(("PrimFloat.", "PrimInt63.", "Uint63.", "PrimArray."))]
+            for a in prims:     # kernel primitives, listed by Print Assumptions but not axioms
+                t = "kernel primitive " + a.split(".")[0]
+                if t not in self.trusted:
+                    self.trusted.append(t)
+            axioms = [a for a in axioms if a not in prims]
             notok = [a for a in axioms if a not in allowed_axioms]
             if notok:
                 ok = False
